@@ -39,6 +39,8 @@ SPECS = {
     "d0_k3pi_hel": ("D0", ["K-", "pi+", "pi+", "pi-"], ["K*(892)0", "rho(770)0", "a(1)(1260)+"], None, "helicity"),
     "b0_dsdpi_hel": ("B0", ["D*(2010)-", "D+", "pi0"], ["D*(2007)0", "D(2)*(2460)0"], None, "helicity"),
     "psi2s_ggjpsi_hel": (("psi(2S)", [-1, 1]), ["gamma", "gamma", "J/psi(1S)"], ["chi(c1)(1P)"], ["EM"], "helicity"),
+    "jpsi_kstkst_hel": (("J/psi(1S)", [-1, 0, 1]), ["K+", "pi-", "K-", "pi+"], ["K*(892)0", "K*(892)~0"], ["strong"], "helicity"),
+    "chic0_kstkst_hel": ("chi(c0)(1P)", ["K+", "pi-", "K-", "pi+"], ["K*(892)0", "K*(892)~0"], ["strong"], "helicity"),
     "jpsi_gkk_hel": (("J/psi(1S)", [-1, 1]), ["gamma", "K+", "K-"], ["f(2)(1270)", "f(0)(1500)"], ["strong", "EM"], "helicity"),
 }
 
